@@ -1,10 +1,13 @@
 package eventlogstore
 
 import (
+	"context"
+
 	ipfslog "berty.tech/go-ipfs-log"
 	"berty.tech/go-orbit-db/iface"
 	"berty.tech/go-orbit-db/internal/vstub"
 	"berty.tech/go-orbit-db/internal/vstubodb"
+	"berty.tech/go-orbit-db/stores/operation"
 	cid "github.com/ipfs/go-cid"
 )
 
@@ -16,7 +19,7 @@ var verifHarnesses = map[string]func(){
 // corresponding contiguous window of the full listing, for EVERY 64-bit amount
 // and every bound position; the listing held by the index is not disturbed.
 func VerifC08Window() {
-	n := vstub.Param("N", 3)
+	n := vstub.NdChoice("entries", vstub.Param("N", 3)+1) // 0..N entries
 	env := vstubodb.NewEnv("a", 1, "log", nil, nil)
 	st, err := NewOrbitDBEventLogStore(env.IPFS, env.Identity, env.Addr, env.Options(false))
 	if err != nil {
@@ -34,7 +37,13 @@ func VerifC08Window() {
 		vstub.Assume(t >= prev)
 		vstub.Assume(t <= prev+1)
 		prev = t
-		e := vstub.MkEntry(k, nil)
+		// payloads are real serialised operations, so that the public List / Stream / Get parse them
+		data, merr := operation.NewOperation(nil, "ADD", []byte{'v', byte('0' + k)}).Marshal()
+		if merr != nil {
+			vstub.Fail("C08 Marshal failed")
+			return
+		}
+		e := vstub.MkEntry(k, data)
 		e.Clock.Time = t
 		listing = append(listing, e)
 	}
@@ -125,6 +134,30 @@ func VerifC08Window() {
 	if len(res) == hi-lo {
 		for k := 0; k < len(res); k++ {
 			vstub.Assert(res[k].GetHash().Equals(listing[lo+k].GetHash()), "C08 window holds the specified entries in listing order")
+		}
+	}
+
+	// the public API (List -> Stream -> query + ParseOperation) returns the same
+	// window, asking twice gives the same answer, and Get by address returns that entry
+	ctx := context.Background()
+	for round := 0; round < 2; round++ {
+		ops, lerr := o.List(ctx, opts)
+		vstub.Assert(lerr == nil, "C08 List returns no error")
+		vstub.Assert(len(ops) == hi-lo, "C08 List returns the specified window (length)")
+		if len(ops) == hi-lo {
+			for k := 0; k < len(ops); k++ {
+				vstub.Assert(ops[k].GetEntry().GetHash().Equals(listing[lo+k].GetHash()), "C08 List returns the specified window in listing order")
+				v := ops[k].GetValue()
+				vstub.Assert(len(v) == 2 && v[1] == byte('0'+lo+k), "C08 List returns each entry's own value")
+			}
+		}
+	}
+	if n > 0 {
+		g := vstub.NdChoice("get", n)
+		op, gerr := o.Get(ctx, listing[g].GetHash())
+		vstub.Assert(gerr == nil && op != nil, "C08 Get by address finds an entry of the log")
+		if gerr == nil && op != nil {
+			vstub.Assert(op.GetEntry().GetHash().Equals(listing[g].GetHash()), "C08 Get by address returns that entry")
 		}
 	}
 
